@@ -79,6 +79,12 @@ type Case struct {
 	Buf     int `json:"buf"`               // size of the read buffer
 	Direct  int `json:"direct"`            // chain element also run through MakeFilter(..).Decode; -1: none
 
+	// ExpectOut is the payload length of a body built by the harness's own
+	// LZW encoder (0: unknown).  It is not asserted (C08 does not state what
+	// is decoded); it feeds the class which shows that the own encoder and
+	// the decoder agree, i.e. that the full-table streams are valid ones.
+	ExpectOut int `json:"expect_out,omitempty"`
+
 	obs observation
 }
 
@@ -229,6 +235,20 @@ func (c *Case) resolveO(o gen.O) (gen.O, bool) {
 }
 
 var imageFilters = map[string]bool{"CCITTFaxDecode": true, "JBIG2Decode": true, "DCTDecode": true}
+
+// imageBound is the largest output oracle 5 accepts from the named filter.
+// Every image filter is held to limits.MaxImageBytes.  CCITTFax data is one
+// bit per pixel, so the documented pixel cap (limits.MaxImagePixels, "the
+// pixel count of a single image"; FilterCCITTFax.Decode: "a conforming image
+// has at most MaxImageHeight rows and MaxImagePixels pixels") bounds its
+// output by MaxImagePixels/8 bytes plus less than one byte of padding for
+// each of at most MaxImageHeight rows.
+func imageBound(name string) int64 {
+	if name == "CCITTFaxDecode" {
+		return limits.MaxImagePixels/8 + limits.MaxImageHeight
+	}
+	return limits.MaxImageBytes
+}
 
 // analyse fills the structural part of the observation from the case alone.
 func (c *Case) analyse() {
@@ -477,8 +497,9 @@ func classifyErr(what string, err error) error {
 //  4. a reader returning (0, nil) 10^4 times in a row, a reader blocked with
 //     no goroutine left that could wake it, and a case that consumed 300 s of
 //     CPU are violations; a case slower than 5 s is only counted;
-//  5. a chain ending in CCITTFax/JBIG2/DCT produces at most
-//     limits.MaxImageBytes;
+//  5. a chain ending in JBIG2/DCT produces at most limits.MaxImageBytes, one
+//     ending in CCITTFax (1 bit per pixel) at most MaxImagePixels/8 +
+//     MaxImageHeight bytes (see imageBound);
 //  6. allocation tripwires, confirmed by a peak-live-heap measurement;
 //  7. a /Filter array longer than the documented cap of 8 is rejected.
 func checkCase(c *Case) error {
@@ -490,8 +511,10 @@ func checkCase(c *Case) error {
 
 	limit := int64(drainCap)
 	general := limit
+	lastName := ""
 	if ob.lastImage {
-		limit = limits.MaxImageBytes + 1
+		lastName = ob.names[len(ob.names)-1]
+		limit = imageBound(lastName) + 1
 	}
 	if c.Origin == "fuzz" {
 		// Campaign throughput (and the engine's own 10 s limit per input):
@@ -520,9 +543,9 @@ func checkCase(c *Case) error {
 	if ob.chainLen > maxChain && res.openErr == nil {
 		return fmt.Errorf("a /Filter array of %d entries was accepted (documented cap: %d)", ob.chainLen, maxChain)
 	}
-	if ob.lastImage && res.out > limits.MaxImageBytes {
-		return fmt.Errorf("chain ending in %s produced more than limits.MaxImageBytes = %d bytes from %d bytes of input",
-			ob.names[len(ob.names)-1], int64(limits.MaxImageBytes), len(raw))
+	if ob.lastImage && c.Origin != "fuzz" && res.out > imageBound(lastName) {
+		return fmt.Errorf("chain ending in %s produced more than %d bytes (%s) from %d bytes of input",
+			lastName, imageBound(lastName), boundName(lastName), len(raw))
 	}
 	// oracle 6 for the chain: every stream involved has its own budget; a
 	// globals stream may be decoded once per chain element
@@ -550,7 +573,7 @@ func checkCase(c *Case) error {
 	ob.direct = true
 	dlimit := general
 	if imageFilters[string(name)] && c.Origin != "fuzz" {
-		dlimit = limits.MaxImageBytes + 1
+		dlimit = imageBound(string(name)) + 1
 	}
 	what := "MakeFilter(" + string(name) + ").Decode"
 	dres, dalloc, delapsed, err := measured(c, what, func() (runResult, error) { return runDirect(c, name, pd, raw, dlimit) })
@@ -569,8 +592,8 @@ func checkCase(c *Case) error {
 	if err := classifyErr(fmt.Sprintf("%s: Read (after %d bytes)", what, dres.out), dres.readErr); err != nil {
 		return err
 	}
-	if imageFilters[string(name)] && dres.out > limits.MaxImageBytes {
-		return fmt.Errorf("%s produced more than limits.MaxImageBytes = %d bytes from %d bytes of input", what, int64(limits.MaxImageBytes), len(raw))
+	if imageFilters[string(name)] && c.Origin != "fuzz" && dres.out > imageBound(string(name)) {
+		return fmt.Errorf("%s produced more than %d bytes (%s) from %d bytes of input", what, imageBound(string(name)), boundName(string(name)), len(raw))
 	}
 	// a single filter reading the raw bytes: its working memory is what the
 	// budget accounts for; 2 MiB for decoder state that is not charged
@@ -582,6 +605,13 @@ func checkCase(c *Case) error {
 		}
 	}
 	return nil
+}
+
+func boundName(name string) string {
+	if name == "CCITTFaxDecode" {
+		return "limits.MaxImagePixels/8 + limits.MaxImageHeight"
+	}
+	return "limits.MaxImageBytes"
 }
 
 func errText(err error) string {
@@ -719,6 +749,9 @@ func classify(c *Case) (bool, []string) {
 	}
 	if ob.closeErr != "" {
 		add("close-error")
+	}
+	if c.ExpectOut > 0 && ob.eof && ob.out == int64(c.ExpectOut) {
+		add("lzw-full-ok")
 	}
 	if ob.rawLen > 0 && ob.out >= 1000*int64(ob.rawLen) {
 		add("expansion>=1000x")
